@@ -201,13 +201,92 @@ def oracle_malformed(c, r):
     return None
 
 
+
+# ----------------------------------------------------------------------- integer dtypes of the cuts
+
+DTYPES = ["int8", "int16", "int32", "int64", "uint8", "uint16", "uint32", "uint64"]
+DT_SCORERS = ["l2", "gvar", "cusum", "chg-l2", "l2saving", "loc-l2"]
+
+
+def dtype_cases():
+    """cuts of every NumPy integer dtype: validity is a property of the integers the array holds, so differences and
+    products must not be taken in a dtype that wraps (unsigned, or narrower than the positions)"""
+    out = []
+    for name in DT_SCORERS:
+        for dt in DTYPES:
+            out.append({"scorer": name, "dtype": dt, "n": 200 if dt in ("int16", "uint16", "int32", "uint32", "int64", "uint64") else 120})
+    return out
+
+
+def dtype_rows(c, k, ms):
+    n = c["n"]
+    info = np.iinfo(c["dtype"])
+    cand = []
+    base = [0, 1, 2, 3, 5, 10, 50, 60, 90, 100, 110, 118, 119, n - 1, n]
+    rng = np.random.default_rng(len(c["scorer"]) * 31 + DTYPES.index(c["dtype"]))
+    for _ in range(60):  # increasing rows inside the data (mostly valid)
+        cand.append(sorted(int(v) for v in rng.choice(base, size=k, replace=False)))
+    for _ in range(40):  # arbitrary order: ties, inversions
+        cand.append([int(v) for v in rng.choice(base, size=k, replace=True)])
+    ext = [info.min, info.min + 1, -2, -1, info.max - 1, info.max, n + 1, n + 2, 126, 127]
+    for _ in range(60):  # values at the ends of the dtype's range mixed in (wrap-around candidates)
+        row = [int(v) for v in rng.choice(base, size=k, replace=True)]
+        row[int(rng.integers(k))] = int(rng.choice(ext))
+        if rng.random() < 0.5:
+            row[int(rng.integers(k))] = int(rng.choice(ext))
+        cand.append(row)
+    return [r for r in cand if all(info.min <= v <= info.max for v in r)]
+
+
+def impl_dtype(c):
+    n = c["n"]
+    X = data(n, 1, 5)
+    try:
+        sc = mk(c["scorer"], 1).fit(X)
+        ms = int(sc.min_size)
+        k = sc.expected_cut_entries
+    except Exception as ex:
+        return {"outcome": "other:" + type(ex).__name__, "msg": str(ex)[:200]}
+    rows = dtype_rows(c, k, ms)
+    out = []
+    for row in rows:
+        arr = np.array([row], dtype=c["dtype"])
+        with np.errstate(all="ignore"):
+            cls, v = classify(lambda: sc.evaluate(arr))
+            ref = None
+            if all(0 <= x <= n for x in row):
+                rc, rv = classify(lambda: sc.evaluate(np.array([row], dtype=np.int64)))
+                ref = [float(x) for x in rv[0]] if rc == "ok" else rc
+        out.append({"row": row, "cls": cls, "val": [float(x) for x in v[0]] if cls == "ok" and v is not None else None, "ref": ref})
+    return {"outcome": "ok", "min_size": ms, "k": int(k), "rows": out}
+
+
+def oracle_dtype(c, r):
+    if r["outcome"] != "ok":
+        return f"fit raised {r['outcome']}"
+    for e in r["rows"]:
+        t = tuple(e["row"])
+        valid = valid_by_property({"n": c["n"], "scorer": c["scorer"]}, r["min_size"], t)
+        if valid and e["cls"] != "ok":
+            return f"{c['scorer']}: the valid cut {t} given as {c['dtype']} is rejected / fails with {e['cls']}"
+        if not valid and e["cls"] == "ok":
+            return f"{c['scorer']}: the invalid cut {t} given as {c['dtype']} is evaluated silently (value {e['val']})"
+        if not valid and e["cls"] != "err":
+            return f"{c['scorer']}: the invalid cut {t} given as {c['dtype']} raises {e['cls']} instead of ValueError"
+        if valid and isinstance(e["ref"], list) and not np.allclose(e["val"], e["ref"], rtol=1e-9, atol=1e-9, equal_nan=False):
+            return f"{c['scorer']}: the valid cut {t} scores {e['val']} as {c['dtype']} but {e['ref']} as int64"
+    return None
+
+
 def run(chk: core.Check):
     tier = chk.tier
     chk.lean()
     chk.rules.append(
         "box: EVERY integer tuple of [-2, n+2]^k for each of the 16 scorers / adapter compositions (k=2: n=6, k=3: n=5, k=4: n=4; +1 in "
         "the thorough tier; +1 for multivariate costs), data with p in {1,2,3} columns, scorer objects fresh or fitted before on another "
-        "number of columns; malformed: float / bool / wrong-width / 1-D / 3-D / empty containers. Non-trivial: every box (each contains "
+        "number of columns; malformed: float / bool / wrong-width / 1-D / 3-D / empty containers; dtypes: cuts of the eight NumPy integer dtypes (rows inside the "
+        "data, ties, inversions, and values at the ends of the dtype's range) for six scorers, valid ones also compared with their int64 "
+        "evaluation. Non-trivial: every box (each contains "
         "valid and invalid tuples); distinct by (scorer, p, refit)"
     )
     chk.exhaustive = True
@@ -238,6 +317,8 @@ def run(chk: core.Check):
     if lines:
         chk.samples.append({"stream": "box/model", "line": lines[len(lines) // 2], "model": outs[len(lines) // 2]})
     chk.run_stream("malformed", malformed_cases(), impl_malformed, oracle=oracle_malformed, site="evaluate/container")
+    chk.run_stream("dtypes", dtype_cases(), impl_dtype, oracle=oracle_dtype, site="evaluate/dtype", per_case_timeout=120,
+                   describe=lambda c: c)
     return chk.finish()
 
 
@@ -250,6 +331,9 @@ def replay(path):
     if v["stream"] == "malformed":
         r = impl_malformed(case)
         print("implementation:", r, "\noracle:", oracle_malformed(case, r))
+    elif v["stream"] == "dtypes":
+        r = impl_dtype(case)
+        print("oracle:", oracle_dtype(case, r))
     else:
         r = impl_box({k: x for k, x in case.items() if k != "cut"})
         print("oracle:", oracle_box(case, r))
